@@ -284,6 +284,40 @@ func runZoneProvenance(c *Ctx) {
 			}
 		}
 	}
+	// the options every parsing function works with carry the caller's Timezone: whatever copy or default object is
+	// substituted for the caller's options (e.g. to fill in the extension) keeps that field
+	nOpts := 0
+	for _, fn := range fns {
+		for _, blk := range fn.Blocks {
+			for _, in := range blk.Instrs {
+				call, ok := in.(ssa.CallInstruction)
+				if !ok {
+					continue
+				}
+				for _, a := range call.Common().Args {
+					if shortType(a.Type()) != "*gtfs.ParseRealtimeOptions" {
+						continue
+					}
+					st := structOf(a.Type())
+					idx := -1
+					for i := 0; st != nil && i < st.NumFields(); i++ {
+						if st.Field(i).Name() == "Timezone" {
+							idx = i
+						}
+					}
+					if idx < 0 {
+						continue
+					}
+					nOpts++
+					fb := newBinder(c)
+					fb.useSite = in
+					e := fb.fieldRef(a, idx, 0)
+					c.Check(e == "param:<gtfs.ParseRealtimeOptions>.Timezone", "ZONE", shortName(fn), "options passed on keep the caller's timezone", p.ipos(in), "Timezone of the options handed to "+trimMod(calleeName(call))+" is the caller's", "the options object handed to "+trimMod(calleeName(call))+" does not always carry the caller's Timezone (it can be "+clip(e, 120)+"): timestamps are then expressed in UTC although a timezone was configured")
+				}
+			}
+		}
+	}
+	c.Stats["ZONE options hand-offs"] = nOpts
 	c.Stats["ZONE time constructions"] = n
 	// timezoneOrUTC: opts.Timezone when set, UTC otherwise
 	for _, f := range fnsByClass(fns, clsZone) {
